@@ -308,6 +308,7 @@ func runC16(c *Ctx) {
 	checkAttrLadders(c, "R5", true)
 
 	checkNameReplyComplete(c, "R7")
+	checkMemFSNameIndex(c, "R8")
 
 	// ---------- R6 a batch of the request server fits the frame the client accepts ----------
 	// one NAME reply holds every entry ListAt delivered; its size is entries x (two copies of the name + attributes)
@@ -1078,4 +1079,52 @@ func checkNameReplyComplete(c *Ctx, rule string) {
 	}
 	c.check(ok && mn == 1 && mx == 1 && !early, rule, "NAME reply encodes every entry", p.Pos(l.head.Instrs[0].Pos()), "each entry appended once; the loop is left early only with an error",
 		"the encoder can skip entries or stop before the last one and still report success: the directory cursor has already moved past them, so they are never listed")
+}
+
+// checkMemFSNameIndex (C16.R8): the in-package backend lists a directory by comparing each memFile's own name field
+// with the directory's, while entries are found by their map key.  Listings are right only while the two agree: every
+// time a file object is filed under a key in root.files, the same function sets that object's name to that key.
+func checkMemFSNameIndex(c *Ctx, rule string) {
+	p := c.P
+	n := 0
+	for _, fn := range p.LibFuncs() {
+		if typeName(recvTypeOf(outermost(fn))) != "root" {
+			continue
+		}
+		ord := 0
+		eachInstr(fn, func(in ssa.Instruction) {
+			mu, ok := in.(*ssa.MapUpdate)
+			if !ok {
+				return
+			}
+			isFiles := false
+			for _, l := range leavesOf(mu.Map) {
+				if l.Kind == leafFieldLoad && l.Field == "files" {
+					isFiles = true
+				}
+			}
+			if !isFiles {
+				return
+			}
+			n++
+			ord++
+			named := false
+			eachInstr(fn, func(x ssa.Instruction) {
+				st, ok := x.(*ssa.Store)
+				if !ok {
+					return
+				}
+				_, fname, base, ok := fieldOf(st.Addr)
+				if !ok || fname != "name" {
+					return
+				}
+				if (base == mu.Value || sameValue(base, mu.Value)) && (st.Val == mu.Key || sameValue(st.Val, mu.Key)) {
+					named = true
+				}
+			})
+			c.check(named, rule, fmt.Sprintf("%s: entry #%d is filed under its own name", fnName(fn), ord), p.Pos(in.Pos()), "files[k] = f goes with f.name = k",
+				"a file object is filed under a key without its name field being set to that key (or another object's name is set instead): listings of its directory, which go by the name field, no longer show it")
+		})
+	}
+	c.check(n >= 3, rule, "in-memory backend: entries filed", "?", fmt.Sprintf("%d sites", n), fmt.Sprintf("only %d sites found", n))
 }
